@@ -151,6 +151,28 @@ def check(prog, run):
     if bl is None or "not self.errors" not in ast.unparse(bl.node):
         run.report(r, "%s:SchemaValidator.__bool__:shape" % VAL, sv.module.relpath, "validator truthiness is not `not self.errors`")
 
+    # ---- V5 loops over members run to completion
+    r = run.rule("V5", "no member-checking loop (one whose body reports or delegates to validate_*/check_*) in a SchemaValidator method ends "
+                       "early: no `break` and no `return` inside its body (a violation "
+                       "found on one member skips at most that member with `continue`), so all violations are reported together", 10)
+    for n, m in sv.methods.items():
+        for x in own_nodes(m.node):
+            if not isinstance(x, (ast.For, ast.While)):
+                continue
+            reporting = any(isinstance(y, ast.Call) and isinstance(y.func, ast.Attribute) and
+                            (y.func.attr == "add_error" or y.func.attr.startswith(("validate_", "check_", "_validate_")))
+                            for y in ast.walk(x))
+            r.instance("%s: loop `%s` (checks members: %s)" % (m.qualname, norm_stmt(x)[:70], reporting))
+            if not reporting:
+                continue    # a pure search loop may stop at its first hit
+            for y in ast.walk(x):
+                if isinstance(y, ast.Return) or (isinstance(y, ast.Break)):
+                    # find the member loop the statement leaves
+                    what = "break" if isinstance(y, ast.Break) else "return"
+                    run.report(r, "%s:%s:loop-ends-early(%s in `%s`)" % (VAL, m.qualname, what, norm_stmt(x)[:50]), m.where(y),
+                               "`%s` inside `%s` stops the loop at the first member it concerns: violations on the remaining members "
+                               "are not reported together with it" % (what, norm_stmt(x)[:70]))
+
     # ---- I1 memoised verdict dropped by every mutator
     r = run.rule("I1", "every Schema method that writes a validation input (field.resolver, field.subscription_resolver, "
                        "object_type.default_resolver) resets self._is_valid on every path after the write; validate() recomputes "
